@@ -66,7 +66,7 @@ def density(T, S, P):
              + 8.50935e-5 * P**2 - 6.12293e-6 * T * P**2 
              + 5.2787e-8 * T**2 * P**2 + 54.6746 * S - 0.603459 * T * S 
              + 1.09987e-2 * T**2 * S - 6.1670e-5 * T**3 * S 
-             + 7.944e-2 * S**(3./2.) + 1.64833e-2 * T * S**(3./2.) 
+             + 7.944e-2 * S**(3./2.) + 1.6483e-2 * T * S**(3./2.) 
              - 5.3009e-4 * T**2 * S**(3./2.) + 2.2838e-3 * P * S 
              - 1.0981e-5 * T * P * S - 1.6078e-6 * T**2 * P * S 
              + 1.91075e-4 * P * S**(3./2.) - 9.9348e-7 * P**2 * S 
